@@ -845,6 +845,10 @@ impl<T: Transport, Env: UtpEnvironment> VirtualSocket<T, Env> {
             }
             PopExpiredProbe::NotExpired => {
                 trace!("MTU probe hasnt expired yet");
+                // Nothing more is segmented while the probe is out, but what was written since
+                // still waits behind it: it must not look like there's nothing left to send.
+                self.this_poll.unsegmented_data =
+                    tx_len.saturating_sub(self.user_tx_segments.total_len_bytes());
                 return Ok(());
             }
             PopExpiredProbe::Empty => {}
